@@ -15,7 +15,8 @@ RULE = (
     "blanks) for Range, and decimal limits (0-3 fractional digits) for DecimalRange, each probed with every limit, "
     "its neighbours, mid points, far values and random values; a further family draws all limits from 17 code points "
     "whose quoted spelling contains a grammar character (both quotes, backslash, the separators, comma, minus, '#', "
-    "blank, digits, 'x', 't') and spells most of them quoted or escaped, another has up to 14 items in any order. "
+    "blank, digits, 'x', 't') and spells most of them quoted or escaped, another has up to 14 items in any order, another takes its limits from 32 code points that Unicode "
+    "normalisation or case mapping would change (OHM SIGN, KELVIN SIGN, compatibility ideographs, ligatures, ...). "
     "Exhaustive: all 1-2 item descriptions with limits in "
     "{-2..2, none} x 3 separator spellings x all values -4..4. Thorough only: 12 atheris campaigns (coverage-guided, "
     "bytes decoded to text or to a token sequence) whose target holds a reference recogniser of the documented "
@@ -262,6 +263,7 @@ def run(ctx):
     small = lambda: gen_range.int_range_cases(limits=gen_range.st.integers(-6, 6))  # noqa: E731
     ctx.hyp("range-small", small, check_case, ctx.n(1000, 30000))
     ctx.hyp("range-meta-chars", gen_range.meta_char_range_cases, check_case, ctx.n(2000, 60000))
+    ctx.hyp("range-unstable-chars", gen_range.unstable_char_range_cases, check_case, ctx.n(600, 20000))
     many = lambda: gen_range.int_range_cases(14, gen_range.st.integers(-400, 400))  # noqa: E731
     ctx.hyp("range-many-items", many, check_case, ctx.n(800, 30000))
     if not ctx.quick:
